@@ -2,7 +2,7 @@
 import re
 import fnmatch
 import itertools
-from .._compat import number_types, string_types
+from .._compat import integer_types, number_types, string_types
 from ..helper.number import to_number
 import operator
 from . import error
@@ -72,6 +72,22 @@ def parse_number(string):
     if isinstance(num, error.XLError):
         return num
     return error.VALUE
+
+def power(number, exponent):
+    """
+    number ** exponent. Integers stay exact as long as the result is within the range of
+    numbers a sheet can hold (below 2**1024); beyond it the answer is #NUM! - Python would
+    go on multiplying for ever (9^999999999).
+    """
+    if (isinstance(number, integer_types) and isinstance(exponent, integer_types)
+            and exponent > 0 and abs(number) > 1
+            and exponent * (abs(number).bit_length() - 1) >= 1024):
+        return error.NUM
+    try:
+        return number ** exponent
+    except OverflowError:
+        return error.NUM
+
 
 def parse_integer(string):
     """
